@@ -67,6 +67,11 @@ def is_exact(num):
 def conv_knot(x, num):
     if num in EXACT:
         return F(x)
+    if num == "int":  # integer knots (results are floats: the library divides ints)
+        x = F(x)
+        if x.denominator != 1:
+            raise HarnessError("profile 'int' needs integral knots")
+        return int(x)
     if num == "float":
         return float(x)
     if num == "npfloat":
@@ -74,10 +79,18 @@ def conv_knot(x, num):
     raise HarnessError(f"unknown number profile {num}")
 
 
+def conv_param(x, num):
+    """A parameter value in the number profile (profile 'int': int when integral, else float)."""
+    if num == "int":
+        x = F(x)
+        return int(x) if x.denominator == 1 else float(x)
+    return conv_knot(x, num)
+
+
 def conv_val(x, num):
     if num == "frac":
         return F(x)
-    if num == "fracint":
+    if num in ("fracint", "int"):
         x = F(x)
         return int(x) if x.denominator == 1 else x
     if num == "float":
